@@ -256,3 +256,23 @@ def _r20f(rep):
     _site(rep, "R20f", "QHA._set_gruneisen_parameter", gr, "gamma_i = beta_i * K_T,i / (Cv(V_i)/V_i in GPa/K)", got,
           f"self._thermal_expansions[{i}] * self._equiv_bulk_modulus[{i}] / (np.dot(np.polyfit(self._volumes, self._cv[{i}], 4), [{v}**4, {v}**3, {v}**2, {v}, 1]) / {v} / 1000 / EvTokJmol * EVAngstromToGPa)",
           "Grueneisen parameter is not beta*K_T*V/Cv with Cv converted J/K/mol -> eV/K -> GPa A^3/K at one index")
+
+
+def selftest():
+    V = []
+    b = lambda name, file, old, new, rule, expect="", **kw: V.append(dict(name=name, kind="break", file=file, old=old, new=new, rule=rule, expect=expect, **kw))
+    n = lambda name, file, old, new, **kw: V.append(dict(name=name, kind="neutral", file=file, old=old, new=new, **kw))
+    b("Birch-Murnaghan coefficient 9/8", EOS, "return p[0] + 9.0 / 16 * p[3] * p[1] * (", "return p[0] + 9.0 / 8 * p[3] * p[1] * (", "R20a", "birch_murnaghan")
+    b("Vinet exponent", EOS, "        xi = 3.0 / 2 * (p[2] - 1)", "        xi = 3.0 / 2 * (p[2] + 1)", "R20a", "vinet")
+    b("Murnaghan reference term", EOS, "            - p[1] * p[3] / (p[2] - 1)", "            - p[1] * p[3] / p[2]", "R20a", "murnaghan")
+    b("pressure subtracted", QHA, "            self._electronic_energies += self._volumes * pressure / EVAngstromToGPa", "            self._electronic_energies -= self._volumes * pressure / EVAngstromToGPa", "R20b", "QHA.__init__")
+    b("BulkModulus works on the caller's array", QHA, "        self._energies = np.array(energies)", "        self._energies = np.asarray(energies)", "R20b", "BulkModulus")
+    b("electronic free energies indexed by a shifted temperature", QHA, "                el_energy = self._electronic_energies[i]", "                el_energy = self._electronic_energies[i - 1]", "R20c", "electronic")
+    b("equilibrium volume taken from the bulk-modulus column", QHA, "self._equiv_volumes = np.array(self._equiv_parameters[:, 3])", "self._equiv_volumes = np.array(self._equiv_parameters[:, 1])", "R20d", "_equiv_volumes")
+    b("EOS names swapped", EOS, '    if eos == "murnaghan":\n        return murnaghan', '    if eos == "murnaghan":\n        return birch_murnaghan', "R20e", "murnaghan")
+    b("thermal expansion one-sided", QHA, "            dv = self._equiv_volumes[i + 1] - self._equiv_volumes[i - 1]", "            dv = self._equiv_volumes[i + 1] - self._equiv_volumes[i]", "R20f", "beta_i")
+    b("Cp from the linear coefficient", QHA, "            cp.append(-(2 * parameters[0]) * t)", "            cp.append(-(2 * parameters[1]) * t)", "R20f", "Cp_i")
+    b("Grueneisen: Cv not per volume", QHA, "                / v\n                / 1000\n                / EvTokJmol", "                / 1000\n                / EvTokJmol", "R20f", "gamma_i")
+    n("Vinet with a cached ratio", EOS, "        x = (v / p[3]) ** (1.0 / 3)", "        ratio = v / p[3]\n        x = ratio ** (1.0 / 3)")
+    n("thermal expansion with renamed locals", QHA, "            dt = self._temperatures[i + 1] - self._temperatures[i - 1]\n            dv = self._equiv_volumes[i + 1] - self._equiv_volumes[i - 1]\n            beta.append(dv / dt / self._equiv_volumes[i])", "            d_temp = self._temperatures[i + 1] - self._temperatures[i - 1]\n            d_vol = self._equiv_volumes[i + 1] - self._equiv_volumes[i - 1]\n            beta.append(d_vol / (d_temp * self._equiv_volumes[i]))")
+    return V
